@@ -376,7 +376,7 @@ class BaseTaskPool:
         awaitable: Awaitable[Any],
         group_name: str = DEFAULT_TASK_GROUP,
         *,
-        ignore_lock: bool = False,
+        ignore_lock: bool = True,
         end_callback: EndCB | None = None,
         cancel_callback: CancelCB | None = None,
     ) -> int:
@@ -395,8 +395,10 @@ class BaseTaskPool:
                 Name of the task group to add the new task to;
                 defaults to the `DEFAULT_TASK_GROUP` constant.
             ignore_lock (optional):
-                If `True`, even if the pool is locked,
-                the task will still be started.
+                If `True` (default), even if the pool is locked, the task will
+                still be started. The lock is checked when a request is
+                accepted (`apply`, `map`, `start`, ...), not again for every
+                task that request spawns later on.
             end_callback (optional):
                 A callback to execute after the task has ended.
                 It is run with the task's ID as its only positional argument.
